@@ -96,3 +96,55 @@ func c13ParsedHelloImmutable(c *Ctx) {
 	}
 	c.Check(reads >= 10, "parsed-hello-immutable", "reads of the parsed hello's JA3 source fields examined", "-", fmt.Sprintf("%d reads, %d writes outside unmarshal", reads, n), "the JA3 source fields of clientHelloMsg were not found (renamed?)")
 }
+
+// c13ListsFromWire: inside clientHelloMsg.unmarshal the JA3 list fields are either reset (nil), allocated with make and
+// filled from the message bytes, appended to, or a slice of the message itself. A list built from constants (a composite
+// literal such as []uint8{0} standing in for an absent extension) makes JA3 report something the client did not send,
+// and makes hellos that differ on the wire collide on one digest.
+func c13ListsFromWire(c *Ctx) {
+	p := c.P
+	um := p.Method(tlsRel, "clientHelloMsg", "unmarshal")
+	if !c.Anchor(um != nil, "ja3-lists-from-wire", "(*tls.clientHelloMsg).unmarshal") {
+		return
+	}
+	lists := map[string]bool{"cipherSuites": true, "supportedCurves": true, "supportedPoints": true, "extensions": true}
+	n := 0
+	for _, b := range um.Blocks {
+		for _, in := range b.Instrs {
+			st, ok := in.(*ssa.Store)
+			if !ok {
+				continue
+			}
+			fa, ok := st.Addr.(*ssa.FieldAddr)
+			if !ok || !lists[fieldNameOf(fa)] || c15Root(fa.X) != ssa.Value(um.Params[0]) {
+				continue
+			}
+			n++
+			key := fmt.Sprintf("unmarshal stores %s #%d", fieldNameOf(fa), n)
+			okV, why := false, ""
+			switch x := st.Val.(type) {
+			case *ssa.Const:
+				okV = x.IsNil()
+			case *ssa.MakeSlice:
+				okV = true
+			case *ssa.Call:
+				if bi, isB := x.Call.Value.(*ssa.Builtin); isB && bi.Name() == "append" {
+					okV = true
+				}
+			case *ssa.Slice:
+				if a, isA := x.X.(*ssa.Alloc); isA {
+					why = "a list literal (" + a.Comment + ") with constant elements"
+				} else if bufBase(x) == ssa.Value(um.Params[1]) {
+					okV = true
+				}
+			case *ssa.Phi:
+				okV = true // merges of the above forms are checked at their own stores
+			}
+			if !okV && why == "" {
+				why = RenderN(st.Val, 3)
+			}
+			c.Check(okV, "ja3-lists-from-wire", key, p.InstrPos(st), "nil, make+fill, append, or a slice of the message bytes", "the parsed hello's "+fieldNameOf(fa)+" is set to "+why+" rather than to what the message carries: JA3 then prints values the client never sent (an absent or empty list becomes a non-empty one)")
+		}
+	}
+	c.Check(n >= 4, "ja3-lists-from-wire", "list stores in unmarshal found", p.Pos(um.Pos()), fmt.Sprint(n), "fewer stores to the JA3 list fields in unmarshal than known")
+}
